@@ -18,6 +18,7 @@ import (
 	"os/exec"
 	"path/filepath"
 	"strings"
+	"syscall"
 	"testing"
 
 	"github.com/alicebob/sqlittle"
@@ -567,6 +568,64 @@ func run(r *vt.Run, t vt.TB, s spec) {
 				}
 				got6, gerr6 = readAllHandle(h)
 			}()
+			// ... and a handle opened before the crash that runs out of file
+			// descriptors: it cannot open the journal to look at it. Refusing
+			// is fine; reading on as if there were no journal is not.
+			var got8 map[string][][]interface{}
+			var gerr8 error
+			if jerr == nil {
+				hh := filepath.Join(dir, "h.sqlite")
+				sqdb.Remove(hh)
+				copyFile(base, hh)
+				if baseJournal {
+					copyFile(base+"-journal", hh+"-journal")
+				}
+				if h8, err := sqlittle.Open(hh); err == nil {
+					if _, err := h8.Columns("t"); err == nil {
+						overwrite(work, hh)
+						os.Remove(hh + "-journal")
+						copyFile(work+"-journal", hh+"-journal")
+						var lim syscall.Rlimit
+						if err := syscall.Getrlimit(syscall.RLIMIT_NOFILE, &lim); err != nil {
+							r.Harness(t, "getrlimit: %v", err)
+						}
+						none := lim
+						none.Cur = 0
+						if err := syscall.Setrlimit(syscall.RLIMIT_NOFILE, &none); err != nil {
+							r.Harness(t, "setrlimit: %v", err)
+						}
+						got8, gerr8 = readAllHandle(h8)
+						if err := syscall.Setrlimit(syscall.RLIMIT_NOFILE, &lim); err != nil {
+							r.Harness(t, "setrlimit back: %v", err)
+						}
+						r.Count("reads-without-file-descriptors", 1)
+						if gerr8 != nil {
+							got8 = nil
+						}
+					}
+					h8.Close()
+				}
+			}
+			if got8 != nil {
+				// (judged like the others below, but only when it delivered data)
+				bad := len(got8) != len(want)
+				for tn, wrows := range want {
+					grows, ok := got8[tn]
+					if !ok || len(grows) != len(wrows) {
+						bad = true
+						break
+					}
+					for i := range wrows {
+						if !e1.SameRow(grows[i], wrows[i]) {
+							bad = true
+						}
+					}
+				}
+				if bad {
+					r.Violation(t, cp, "unrecovered-state-read", "%s; handle opened before the crash, process out of file descriptors at its next read (the journal cannot be opened): the read succeeds with content that is not what SQLite recovers", where0)
+					return
+				}
+			}
 			for _, ob := range []observer{{"fresh handle", got, gerr}, {"handle opened before the crash", got2, gerr2}, {"fresh handle while another process holds a read lock", got3, gerr3}, {"handle opened before the crash and not used until after it", got4, gerr4},
 				{"fresh handle opened through a symbolic link to the database file", got5, gerr5}, {"handle opened by a relative name, working directory changed before the read", got6, gerr6},
 				{"fresh handle opened by a name leading through a symbolic link to a directory and ..", got7, gerr7}} {
